@@ -202,6 +202,48 @@ Section PositionEquiv.
 End PositionEquiv.
 
 (* ---------------------------------------------------------------------------------------------- *)
+(* update_velocity: the body of `for i in range(0, len(individual.vector))` (one coordinate of one particle) of
+   SwarmAlgorithm.update_velocity (OMOPSO, SMPSO) and of PSOGA.update_velocity, in body mode: a function of the
+   coordinate index i, the particle, the leader and the four rounded draws (locals of the enclosing loop);
+   self.inertia_weight() is one draw, self.khi an arbitrary function, self.speed_constriction the translated
+   function above.  The new velocity entry is the model's speed_constriction (raw_velocity ...) with the
+   parameter's bounds in the order (upper, lower); the draws record d only collects the locals. *)
+Section VelocityBody.
+  Context {T P : Type} (ltb : T -> T -> bool) (add sub mul div : T -> T -> T) (neg : T -> T) (two : T).
+  Variables (vec vel best : P -> list T) (khi : T -> T -> T).
+
+  Definition draws_of (c1 c2 r1 r2 : T) : draws :=
+    {| d_r1 := r1; d_r2 := r2; d_c1 := c1; d_c2 := c2; d_khi := khi c1 c2; d_w := [] |}.
+
+  Theorem velocity_body_gen_eq_model : forall (w : T) i (p g : P) c1 c2 r1 r2 (params : list (T * T)) x b gx lb ub,
+    nth_error (vec p) i = Some x -> nth_error (best p) i = Some b -> nth_error (vec g) i = Some gx ->
+    nth_error params i = Some (lb, ub) ->
+    velocity_body_gen ltb add sub mul div neg two vec vel best (@bnd T) w khi i p g c1 c2 r1 r2 params =
+    py_set_nth i (speed_constriction ltb sub div neg two
+                    (raw_velocity add sub mul VBase (draws_of c1 c2 r1 r2) w x b gx) ub lb) (vel p).
+  Proof.
+    intros w i p g c1 c2 r1 r2 params x b gx lb ub Hx Hb Hg Hp.
+    unfold velocity_body_gen. rewrite ?Hx, ?Hb, ?Hg, ?Hp. cbn [bnd fst snd nth_error].
+    rewrite speed_constriction_gen_eq_model. unfold raw_velocity, draws_of. cbn [d_r1 d_r2 d_c1 d_c2 d_khi].
+    destruct (py_set_nth i _ (vel p)); reflexivity.
+  Qed.
+
+  Theorem psoga_velocity_body_gen_eq_model : forall i (p g : P) c1 c2 r1 r2 (params : list (T * T)) x b gx lb ub,
+    nth_error (vec p) i = Some x -> nth_error (best p) i = Some b -> nth_error (vec g) i = Some gx ->
+    nth_error params i = Some (lb, ub) ->
+    psoga_velocity_body_gen ltb add sub mul div neg two vec vel best (@bnd T) khi i p g c1 c2 r1 r2 params =
+    py_set_nth i (speed_constriction ltb sub div neg two
+                    (raw_velocity add sub mul VPsoga (draws_of c1 c2 r1 r2) (khi c1 c2) x b gx) ub lb) (vel p).
+  Proof.
+    intros i p g c1 c2 r1 r2 params x b gx lb ub Hx Hb Hg Hp.
+    unfold psoga_velocity_body_gen. rewrite ?Hx, ?Hb, ?Hg, ?Hp. cbn [bnd fst snd nth_error].
+    rewrite ?Hx, ?Hb, ?Hg, ?Hp.
+    rewrite speed_constriction_gen_eq_model. unfold raw_velocity, draws_of. cbn [d_r1 d_r2 d_c1 d_c2 d_khi].
+    destruct (py_set_nth i _ (vel p)); reflexivity.
+  Qed.
+End VelocityBody.
+
+(* ---------------------------------------------------------------------------------------------- *)
 (* the binary64 instances (they pin the operators and the literals 2, -1, 0.001) against the instances
    the executable driver Run/C18Run.v runs; the driver's order fltb is PrimFloat.ltb on non-NaN values
    (Base/FloatInst.v fltb_is_ltb) *)
@@ -222,5 +264,12 @@ Proof.
   - exact (smpso_position_body_gen_eq_model PrimFloat.ltb PrimFloat.add PrimFloat.mul vec vel _ p params).
   - exact (psoga_position_body_gen_eq_model PrimFloat.ltb PrimFloat.add PrimFloat.mul vec vel _ p params).
 Qed.
+
+Corollary velocity_bodies_gen_float : forall (P : Type) (vec vel best : P -> list float) (w : float) khi i (p g : P) c1 c2 r1 r2 params,
+  velocity_body_gen_f vec vel best (@bnd float) w khi i p g c1 c2 r1 r2 params =
+  velocity_body_gen PrimFloat.ltb PrimFloat.add PrimFloat.sub PrimFloat.mul PrimFloat.div PrimFloat.opp TWO vec vel best (@bnd float) w khi i p g c1 c2 r1 r2 params /\
+  psoga_velocity_body_gen_f vec vel best (@bnd float) khi i p g c1 c2 r1 r2 params =
+  psoga_velocity_body_gen PrimFloat.ltb PrimFloat.add PrimFloat.sub PrimFloat.mul PrimFloat.div PrimFloat.opp TWO vec vel best (@bnd float) khi i p g c1 c2 r1 r2 params.
+Proof. intros. split; reflexivity. Qed.
 
 (* Print Assumptions of the theorems above is run by harness/core.py translated_obligations (qualified names, whitelist) *)
